@@ -53,6 +53,17 @@ func cmdReplay(args []string) int {
 	}
 	tmp, _ := os.MkdirTemp("", "verif-replay")
 	defer os.RemoveAll(tmp)
+	if strings.Contains(rf.TestPkgDir, "/"+genDirName+"/") {
+		// counterexample against generated code: regenerate it from the current tree
+		dir, _, _, _, gerr := generateCorpus("/repo", "/verif", corpusFor(rf.Property, "/repo", "/verif"), nil)
+		if dir != "" {
+			defer os.RemoveAll(dir)
+		}
+		if gerr != nil {
+			fmt.Println("MACHINERY-ERROR:", gerr)
+			return 2
+		}
+	}
 	rf.Reproduced = false
 	runReplay(&rf, "/repo", tmp)
 	fmt.Printf("inputs:     %s\npredicted:  %s\nreal run:   %s\nreproduced: %v\n", strings.Join(rf.Inputs, "; "), strings.Join(rf.Predicted, ", "), rf.RealOutput, rf.Reproduced)
@@ -79,7 +90,26 @@ func cmdCheck(args []string) int {
 	if *pkgs != "" {
 		patterns = strings.Split(*pkgs, ",")
 	}
-	prog, err := loadProgram(LoadOpts{RepoDir: *repo, Patterns: patterns, ExtSpecs: pc.ExtSpecs})
+	lo := LoadOpts{RepoDir: *repo, Patterns: patterns, ExtSpecs: pc.ExtSpecs}
+	var genInstances []string
+	if pc.Gen {
+		// generated-code property: run the working tree's generator into a scratch module and verify its output
+		dir, ov, pats, insts, gerr := generateCorpus(*repo, *verifDir, corpusFor(*prop, *repo, *verifDir), map[string]bool{*prop: true})
+		if dir != "" && os.Getenv("VERIF_KEEP_GEN") == "" {
+			defer os.RemoveAll(dir)
+		}
+		if gerr != nil {
+			fmt.Println("MACHINERY-ERROR:", gerr)
+			return 2
+		}
+		if os.Getenv("VERIF_KEEP_GEN") != "" {
+			fmt.Fprintln(os.Stderr, "generated corpus kept in", dir)
+		}
+		genInstances = insts
+		lo.Overlay = ov
+		lo.Patterns = pats
+	}
+	prog, err := loadProgram(lo)
 	if err != nil {
 		fmt.Println("MACHINERY-ERROR:", err)
 		return 2
@@ -101,7 +131,7 @@ func cmdCheck(args []string) int {
 		if c.Assumed || (c.Mode == "pure" && len(c.Ensures) == 0) || c.Mode == "opaque" {
 			continue
 		}
-		if *only != "" && !strings.HasSuffix(k, *only) {
+		if *only != "" && !strings.HasSuffix(k, *only) && !(strings.HasPrefix(*only, "~") && strings.Contains(k, (*only)[1:])) {
 			continue
 		}
 		keys = append(keys, k)
@@ -134,12 +164,13 @@ func cmdCheck(args []string) int {
 	e.solveAll(results)
 	seed, _ := strconv.ParseInt(os.Getenv("VERIF_SEED"), 10, 64)
 	return finishRun(e, results, runOpts{prop: *prop, tier: *tier, verbose: *verbose, t0: t0, verifDir: *verifDir, repoDir: *repo,
-		checkerCmd: "./check " + *prop + " " + *tier, seed: seed})
+		checkerCmd: "./check " + *prop + " " + *tier, seed: seed, genInstances: genInstances})
 }
 
 type PropConfig struct {
 	Pkgs     []string
 	ExtSpecs []string
+	Gen      bool // verify the generator's output on the schema corpus
 }
 
 func propConfig(id, verifDir string) PropConfig {
@@ -153,6 +184,12 @@ func propConfig(id, verifDir string) PropConfig {
 		return PropConfig{Pkgs: []string{"./protogen"}, ExtSpecs: ext}
 	case "C22", "C23":
 		return PropConfig{Pkgs: []string{"./gnmidiff"}, ExtSpecs: ext}
+	case "C15", "C34", "C33", "C17":
+		return PropConfig{Gen: true, ExtSpecs: ext}
+	case "C05":
+		return PropConfig{Pkgs: []string{"./ygot"}, ExtSpecs: ext}
+	case "C16", "C19":
+		return PropConfig{Pkgs: []string{"./ygot", "./ytypes"}, ExtSpecs: ext}
 	case "C11", "C20":
 		return PropConfig{Pkgs: []string{"./util", "./ytypes", "./ygot", "./gnmidiff"}, ExtSpecs: ext}
 	}
